@@ -397,7 +397,15 @@ def install(run, patch):
     def addgp(fl, gp, x_new, y_new, sd_new=None, options=None):
         if run.cur_poll is not None:
             run.cur_poll["n_add"] = run.cur_poll.get("n_add", 0) + 1
-        return o_addgp(fl, gp, x_new, y_new, sd_new, options)
+        g = o_addgp(fl, gp, x_new, y_new, sd_new, options)
+        if run.cur_poll is not None and run.mode != "det":
+            # what the *updated* surrogate says at the point just polled: this is the estimate the poll has to be judged on
+            try:
+                m_, _ = g.predict(np.atleast_2d(np.asarray(x_new, float)))
+                run.cur_poll.setdefault("post", []).append(float(np.ravel(m_)[0]))
+            except Exception:  # noqa
+                run.cur_poll.setdefault("post", []).append(None)
+        return g
 
     patch.set(bb, "add_and_update_gp", addgp)
 
